@@ -565,6 +565,75 @@ def run(ctx):
                                   'chronological order the block-walking reader presents other data per time index than the memory-mapped reader (and the rewrite is not byte-identical)' % norm(reord[0])[:50]))
         else:
             ctx.ok('R-PIECEORDER', 'pieces', wgi, 'iterates %s' % norm(it)[:60])
+    # ---- R-WINDOW3: the window-origin test looks at all three start indices read from the header
+    ctx.rule('R-WINDOW3', 'first reader: a block is a window when any of its three start indices (i, j, l) is not the origin')
+    starts = []
+    for st in iter_stmts(miss.body):
+        if isinstance(st, ast.Assign) and "['f14']" in norm(st.value):
+            tg = st.targets[0]
+            starts = [e.id for e in tg.elts if isinstance(e, ast.Name)] if isinstance(tg, ast.Tuple) else starts
+    tests = [st for st in ast.walk(miss) if isinstance(st, ast.If) and starts and any(isinstance(n_, ast.Name) and n_.id in starts for n_ in ast.walk(st.test))]
+    if len(starts) != 3 or not tests:
+        ctx.undec('R-WINDOW3', 'window test', wmiss, 'start indices / window test not found (%s)' % starts)
+    else:
+        used = set(n_.id for n_ in ast.walk(tests[0].test) if isinstance(n_, ast.Name)) & set(starts)
+        if used == set(starts):
+            ctx.ok('R-WINDOW3', 'window test', wmiss, norm(tests[0].test)[:60])
+        else:
+            ctx.violation(Finding('R-WINDOW3', B, '_tracer_lookup.__missing__', tests[0], 'the window test reads %s of the three start indices %s: a block saved on a vertical (or other) window only is taken for a full-grid '
+                                  'block and loses its STARTK / STARTJ / STARTI attribute' % (sorted(used), starts)))
+    # ---- R-COLTILE: the numeric columns of a tracerinfo.dat line are cut without gaps (MOLWT, C, TRACER, SCALE are adjacent fixed-width fields)
+    ctx.rule('R-COLTILE', 'first reader: the numeric fields of a tracerinfo line are adjacent slices (the end of one is the start of the next)')
+    numsl = []
+    for c in ast.walk(b1):
+        if isinstance(c, ast.Call) and isinstance(c.func, ast.Name) and c.func.id in ('int', 'float') and len(c.args) == 1:
+            a0 = c.args[0]
+            while isinstance(a0, ast.Call) and isinstance(a0.func, ast.Attribute) and a0.func.attr == 'strip':
+                a0 = a0.func.value
+            if isinstance(a0, ast.Subscript) and isinstance(a0.slice, ast.Slice) and isinstance(a0.value, ast.Name) and isinstance(a0.slice.lower, ast.Constant) \
+                    and isinstance(a0.slice.upper, ast.Constant) and a0.slice.lower.value >= 39:
+                numsl.append((a0.slice.lower.value, a0.slice.upper.value, a0.value.id, c))
+    numsl = sorted(set((a, b_, n_) for a, b_, n_, c in numsl)), numsl
+    spans = [(a, b_) for a, b_, n_ in numsl[0]]
+    gaps = [(spans[i], spans[i + 1]) for i in range(len(spans) - 1) if spans[i][1] != spans[i + 1][0] and spans[i] != spans[i + 1]]
+    if len(spans) < 4:
+        ctx.undec('R-COLTILE', 'tracerinfo', wb1, 'numeric column slices not found (%s)' % spans)
+    elif gaps:
+        badc = [c for a, b_, n_, c in numsl[1] if (a, b_) == gaps[0][1]][0]
+        ctx.violation(Finding('R-COLTILE', B, 'bpch1.__init__', api.stmt_of(badc), 'the numeric fields are cut as %s: columns %d..%d belong to no field (a field that uses its full width loses its first character: '
+                              "'1.0000E+09' is read as 0.0)" % (spans, gaps[0][0][1], gaps[0][1][0])))
+    else:
+        ctx.ok('R-COLTILE', 'tracerinfo', wb1, 'numeric fields %s are adjacent' % spans)
+    # ---- R-REWINDCOPY: the side tables are copied from handles the reader has already read to the end: rewind before read()
+    ctx.rule('R-REWINDCOPY', 'writer: a table handle taken from the input file object is rewound (seek(0)) before it is read for the copy next to the output')
+    wfn = bm.func('ncf2bpch')
+    wwf = 'src/PseudoNetCDF/%s ncf2bpch' % B
+    nrd = 0
+    for c in ast.walk(wfn):
+        if not (isinstance(c, ast.Call) and isinstance(c.func, ast.Attribute) and c.func.attr == 'read' and not c.args):
+            continue
+        h = c.func.value
+        base = h
+        while isinstance(base, ast.Attribute):
+            base = base.value
+        fromfile = isinstance(base, ast.Name) and base.id in [a.arg for a in wfn.args.args]
+        if isinstance(h, ast.Name):
+            defs = [st for st in iter_stmts(wfn.body) if isinstance(st, ast.Assign) and isinstance(st.targets[0], ast.Name) and st.targets[0].id == h.id]
+            fromfile = any(isinstance(n_, ast.Name) and n_.id in [a.arg for a in wfn.args.args] for st in defs for n_ in ast.walk(st.value))
+        if not fromfile:
+            continue
+        nrd += 1
+        ht = norm(h)
+        order = list(iter_stmts(wfn.body))
+        pos = order.index(api.stmt_of(c)) if api.stmt_of(c) in order else len(order)
+        seeks = [st for st in order[:pos] if any(isinstance(x, ast.Call) and isinstance(x.func, ast.Attribute) and x.func.attr == 'seek' and norm(x.func.value) == ht
+                                                  and x.args and isinstance(x.args[0], ast.Constant) and x.args[0].value == 0 for x in ast.walk(st))]
+        if seeks:
+            ctx.ok('R-REWINDCOPY', ht[:40], wwf, 'seek(0) before read()')
+        else:
+            ctx.violation(Finding('R-REWINDCOPY', B, 'ncf2bpch', api.stmt_of(c), '%s.read() without a rewind: the reader left the handle at the end of the table, so the copy written next to the output is empty and '
+                                  'the output cannot be read back there' % ht), oid=ht[:40])
+    ctx.floor('table handles read by ncf2bpch', nrd, 1)
     # ---- R-DIAGFILTER: which lines of diaginfo.dat are data (finite case analysis of the filter)
     from .. import consteval as _ce18
     ctx.rule('R-DIAGFILTER', 'first reader: lines of diaginfo.dat that do not start with # are data lines (offsets are right-aligned, so they start with blanks)')
